@@ -183,8 +183,8 @@ func RunTrace(prop, root string, ops []string) int {
 		if br.Res != nil {
 			for i, r := range br.Res.TxResults {
 				log := r.Log
-				if len(log) > 300 {
-					log = log[:300]
+				if len(log) > 3000 {
+					log = log[:3000]
 				}
 				fmt.Printf("   tx%d code=%d gas=%d %s\n", i, r.Code, r.GasUsed, log)
 			}
